@@ -1,6 +1,6 @@
 #!/bin/bash
 # tools/seedtest.sh <prop> <patch> : apply a seeded change to /repo, run the quick check, undo it.
-P=$1; PATCH=$2
+P=$1; PATCH=$(readlink -f "$2")
 if [ -n "$(git -C /repo status --porcelain)" ]; then echo "refusing: /repo has uncommitted changes"; exit 4; fi
 cd /repo && git apply "$PATCH" || { echo "PATCH DOES NOT APPLY"; exit 3; }
 git diff --stat | tail -1
